@@ -20,8 +20,8 @@ def fmt_prog(p):
     lines = [f"prog {p['id']} [{p['fam']}] objs={hdr}"]
     for i, t in enumerate(p["tasks"]):
         own = {k: t[k] for k in ("tx", "rx", "otx", "orx") if t.get(k)}
-        ops = "; ".join(f"{o['k']}({o['o']},{o['v']})" for o in t["ops"])
-        lines.append(f"  T{i} [{t['kind']}{' ' + str(own) if own else ''}]: {ops}")
+        ops = "; ".join(("?" if o.get("c") else "") + f"{o['k']}({o['o']},{o['v']})" for o in t["ops"])
+        lines.append(f"  T{i} [{t.get('kind', 'thread')}{' ' + str(own) if own else ''}]: {ops}")
     return "\n".join(lines)
 
 
@@ -140,7 +140,144 @@ def gen_oneshot(count, seed, first_id=7300):
     return out
 
 
+def lprog(pid, fam, tasks, nrw=0, nmx=0, nmap=0):
+    return {"id": pid, "fam": fam, "lang": "locks", "nrw": nrw, "nmx": nmx, "nmap": nmap,
+            "tasks": [{"kind": "thread", "ops": t} for t in tasks]}
+
+
+def cop(k, o=0, v=0):
+    """an operation that is skipped when the task's latest try operation failed"""
+    return {"k": k, "o": o, "v": v, "c": 1}
+
+
+def gen_rw(count, seed, first_id=8500):
+    """One parking_lot RwLock: every task walks none -> shared / upgradable / exclusive and back, including the
+    upgrade and the three downgrades; what follows a try operation runs only if it succeeded."""
+    rng = random.Random(f"pl_rw:{seed}")
+    out = []
+    for i in range(count):
+        n = rng.randint(2, 3)
+        tasks = []
+        for t in range(n):
+            ops = []
+            mode = "none"
+            cond = False
+            mk = (lambda k, v=0: cop(k, 0, v)) if False else None
+            for _ in range(rng.randint(2, 5)):
+                def emit(k, v=0):
+                    ops.append(cop(k, 0, v) if cond else op(k, 0, v))
+                if mode == "none":
+                    k = rng.choice(["rd_lock", "rd_lock", "rd_try", "wr_lock", "wr_lock", "wr_try", "up_lock", "up_lock", "up_try", "yield"])
+                    if k == "yield":
+                        ops.append(op("yield"))
+                        continue
+                    cond = k.endswith("_try")
+                    ops.append(op(k, 0))
+                    mode = {"rd": "rd", "wr": "wr", "up": "up"}[k[:2]]
+                elif mode == "rd":
+                    k = rng.choice(["get", "rd_unlock", "rd_unlock", "yield"])
+                    emit(k)
+                    if k == "rd_unlock":
+                        mode, cond = "none", False
+                elif mode == "up":
+                    k = rng.choice(["get", "upgrade", "upgrade", "try_upgrade", "down_up", "up_unlock", "yield"])
+                    if k == "try_upgrade":
+                        # keep it simple: a failed try_upgrade ends the critical section
+                        emit("try_upgrade")
+                        emit("get")
+                        break
+                    emit(k)
+                    mode = {"upgrade": "wr", "down_up": "rd", "up_unlock": "none"}.get(k, "up")
+                    if mode == "none":
+                        cond = False
+                else:
+                    k = rng.choice(["get", "set", "set", "downgrade", "down_to_up", "wr_unlock", "yield"])
+                    emit(k, rng.randint(1, 9) + 10 * t if k == "set" else 0)
+                    mode = {"downgrade": "rd", "down_to_up": "up", "wr_unlock": "none"}.get(k, "wr")
+                    if mode == "none":
+                        cond = False
+            tasks.append(ops)
+        out.append(lprog(first_id + i, "pl_rw", tasks, nrw=1))
+    return out
+
+
+def gen_dm(count, seed, first_id=8800):
+    rng = random.Random(f"pl_dm:{seed}")
+    out = []
+    for i in range(count):
+        n = rng.randint(2, 3)
+        tasks = []
+        for t in range(n):
+            ops = []
+            for _ in range(rng.randint(1, 3)):
+                k = rng.choice(["dm_insert", "dm_insert", "dm_get", "dm_remove", "dm_contains", "dm_len", "dm_alter", "dm_clear"])
+                ops.append(op(k, rng.randrange(3), rng.randint(1, 9) + 10 * t))
+            tasks.append(ops)
+        out.append(lprog(first_id + i, "pl_dm", tasks, nmap=1))
+    return out
+
+
+def gen_pm(count, seed, first_id=9100):
+    rng = random.Random(f"pl_mx:{seed}")
+    out = []
+    for i in range(count):
+        n = rng.randint(2, 3)
+        tasks = []
+        for t in range(n):
+            ops = []
+            held = False
+            cond = False
+            for _ in range(rng.randint(1, 4)):
+                if not held:
+                    k = rng.choice(["pm_lock", "pm_lock", "pm_try", "yield"])
+                    ops.append(op(k, 0))
+                    if k != "yield":
+                        held, cond = True, k == "pm_try"
+                else:
+                    k = rng.choice(["pm_unlock", "pm_unlock", "yield"])
+                    ops.append(cop(k, 0) if cond else op(k, 0))
+                    if k == "pm_unlock":
+                        held, cond = False, False
+            tasks.append(ops)
+        out.append(lprog(first_id + i, "pl_mx", tasks, nmx=1))
+    return out
+
+
+def pl_corpus():
+    P = []
+    # a writer downgrades to upgradable while another thread is queued for the upgradable slot
+    P.append(lprog(8400, "pl_corpus", [
+        [op("wr_lock"), op("set", 0, 1), op("yield"), op("down_to_up"), op("get"), op("up_unlock")],
+        [op("up_lock"), op("get"), op("up_unlock")]], nrw=1))
+    # an upgrade that has to wait for a reader while a writer is queued: the writer must not get in first
+    P.append(lprog(8401, "pl_corpus", [
+        [op("up_lock"), op("get"), op("upgrade"), op("get"), op("set", 0, 7), op("wr_unlock")],
+        [op("wr_lock"), op("set", 0, 5), op("wr_unlock")],
+        [op("rd_lock"), op("yield"), op("rd_unlock")]], nrw=1))
+    # downgrade / downgrade_upgradable with a queued writer and reader
+    P.append(lprog(8402, "pl_corpus", [
+        [op("wr_lock"), op("set", 0, 3), op("downgrade"), op("get"), op("rd_unlock")],
+        [op("wr_lock"), op("set", 0, 4), op("wr_unlock")],
+        [op("rd_lock"), op("get"), op("rd_unlock")]], nrw=1))
+    P.append(lprog(8403, "pl_corpus", [
+        [op("up_lock"), op("down_up"), op("get"), op("rd_unlock")],
+        [op("up_lock"), op("upgrade"), op("set", 0, 9), op("wr_unlock")]], nrw=1))
+    # try variants against every mode
+    P.append(lprog(8404, "pl_corpus", [
+        [op("up_lock"), op("yield"), op("try_upgrade"), cop("set", 0, 2), op("yield")],
+        [op("rd_try"), cop("get"), cop("rd_unlock"), op("wr_try"), cop("wr_unlock"), op("up_try"), cop("up_unlock")]], nrw=1))
+    return P
+
+
 def family(fam, count, seed):
+    if fam == "pl_rw":
+        return gen_rw(count, seed)
+    if fam == "pl_dm":
+        return gen_dm(count, seed)
+    if fam == "pl_mx":
+        return gen_pm(count, seed)
+    if fam == "pl_corpus":
+        return pl_corpus()
     if fam == "tk_mpsc":
         return gen_mpsc(count, seed)
     if fam == "tk_oneshot":
